@@ -55,7 +55,11 @@ func x1Bound(prop, tier string) int {
 	return 2
 }
 
-const chunkCount = 32
+const chunkCount = 48
+
+// chunkOf spreads scenarios over chunks by name (neighbouring indices share parameters, so a stride would
+// put all the heavy ones into the same chunk)
+func chunkOf(name string) int { return int(hashStr(name) % chunkCount) }
 
 func unitsFor(prop, tier string) []Unit {
 	var us []Unit
@@ -73,6 +77,12 @@ func unitsFor(prop, tier string) []Unit {
 		n := procxParts(prop, tier)
 		for i := 0; i < n; i++ {
 			us = append(us, Unit{Prop: prop, Tier: tier, Kind: "procx", Index: i, Name: fmt.Sprintf("procx/%s/part-%d-of-%d", prop, i, n)})
+		}
+	}
+	if prop == "C02" || prop == "C08" {
+		// the same graph sweep in the build where every stage-status read / update is a scheduling point
+		for i := 0; i < chunkCount; i++ {
+			us = append(us, Unit{Prop: prop, Tier: tier, Kind: "x1chunk", Index: i, Bin: "sp", Name: fmt.Sprintf("statuspoints/x1chunk/%d-of-%d", i, chunkCount)})
 		}
 	}
 	switch prop {
@@ -134,12 +144,29 @@ func runUnit(u Unit) UnitResult {
 		total := UnitResult{Name: u.Name, Exhaustive: true, Unbounded: true, Bound: 1 << 30}
 		outcomes := 0
 		for i, sc := range scs {
-			if i%chunkCount != u.Index {
+			_ = i
+			if chunkOf(sc.Name) != u.Index {
 				continue
 			}
 			b := x1Bound(u.Prop, u.Tier)
 			if sc.Bound != nil {
 				b = *sc.Bound
+			}
+			if u.Bin == "sp" {
+				// status points roughly triple the depth of an execution: one deviation less than the plain build,
+				// and in the quick tier only graphs of up to 2 tasks plus the 3-task ones at bound 0
+				if u.Tier != "thorough" {
+					if strings.Contains(sc.Name, "dag3/") || strings.Contains(sc.Name, "dag4/") {
+						b = 0
+					} else if b > 1 {
+						b = 1
+					}
+				} else if b > 0 {
+					b--
+				}
+				if strings.HasPrefix(sc.Name, "cyclic/") {
+					continue
+				}
 			}
 			r := runX1Unit(u, sc, b)
 			total.Execs += r.Execs
